@@ -757,33 +757,28 @@ def m_call_inline(self, st, c, pos, kws, kwstar, k):
     return self.exec_block(st, body, lambda st2: on_return(st2, VNone()))
 
 
-def m_tv_frag_insert(self, st, frag, position, string, k, no_check=False):
+def m_tv_frag_insert(self, st, frag, position, string, k, restore=None):
     """Fragments.insert in translation-validation mode: the buffer is the sparse byte array of its
     contract (C11): raise iff a byte of the range is occupied, else store exactly those bytes."""
     pos, c1 = self.as_int(position)
     sb, c2 = self.as_bytes(string)
-    if z3.is_app(sb) and sb.decl().name() == 'bconcat' and is_false(z3.Or(c1, c2)) and not no_check:
-        # storing x ++ y at p is storing x at p and y at p + |x|: keeps the buffer terms of vectorised and per-field code
-        # syntactically aligned.  The insert is ATOMIC: it raises iff a byte of the WHOLE range is occupied, before
-        # anything is stored or the cursor moves (the handlers report the cursor).
+    if z3.is_app(sb) and sb.decl().name() == 'bconcat' and is_false(z3.Or(c1, c2)) and restore is None:
+        # storing x ++ y at p is storing x at p and y at p + |x|: the collision test of every part is the very term the
+        # per-field code tests (buffer terms of vectorised and per-field code stay syntactically aligned).  But the insert
+        # is ATOMIC: when a part collides, NOTHING has been stored and the cursor has not moved (the handlers report the
+        # cursor) - the raising path gets the buffer as it was before the first part.
         def parts_of(t):
             if z3.is_app(t) and t.decl().name() == 'bconcat':
                 return parts_of(t.children()[0]) + parts_of(t.children()[1])
             return [t]
         parts = parts_of(sb)
-        total = sum([T.blen(t) for t in parts[1:]], T.blen(parts[0]))
-        occ0 = z3.Select(st.heap['Fragments.occ'], frag.z)
-        p0 = z3.Int('p!fi')
-        collide_all = z3.Exists([p0], z3.And(pos <= p0, p0 < pos + total, z3.Select(occ0, p0)))
+        orig = {key: st.heap[key] for key in ('Fragments.occ', 'Fragments.byt', 'Fragments.current_offset', 'Fragments.extent')}
 
-        def store_all(st):
-            def go(st, i, at):
-                if i == len(parts):
-                    return k(st, VNone())
-                return self.tv_frag_insert(st, frag, VInt(at), VBytes(parts[i]), lambda st, _: go(st, i + 1, at + T.blen(parts[i])), no_check=True)
-            return go(st, 0, pos)
-        self.used_assumptions.add('Fragments behaves as the sparse byte array of its contract (C11)')
-        return self.with_raises(st, [(collide_all, 'Exception')], store_all)
+        def go(st, i, at):
+            if i == len(parts):
+                return k(st, VNone())
+            return self.tv_frag_insert(st, frag, VInt(at), VBytes(parts[i]), lambda st, _: go(st, i + 1, at + T.blen(parts[i])), restore=orig)
+        return go(st, 0, pos)
     L = T.blen(sb)
     occ = z3.Select(st.heap['Fragments.occ'], frag.z)
     byt = z3.Select(st.heap['Fragments.byt'], frag.z)
@@ -800,7 +795,18 @@ def m_tv_frag_insert(self, st, frag, position, string, k, no_check=False):
         st.heap['Fragments.current_offset'] = z3.Store(st.heap['Fragments.current_offset'], frag.z, pos + L)
         st.heap['Fragments.extent'] = z3.Store(st.heap['Fragments.extent'], frag.z, z3.If(pos + L > ext, pos + L, ext))
         return k(st, VNone())
-    if no_check:
+    if restore is not None:
+        # one part of an atomic multi-part insert: on collision raise from the ORIGINAL buffer state
+        cz = zs(collide)
+        if not z3.is_false(cz) and self.feasible(st, cz):
+            s2 = st.fork('raise:Exception')
+            s2.assume(cz)
+            for key, v in restore.items():
+                s2.heap[key] = v
+            self.do_raise(s2, VExc('Exception'))
+        st.assume(z3.Not(cz))
+        if not self.feasible(st, z3.BoolVal(True)):
+            return
         return cont(st)
     return self.with_raises(st, [(z3.Or(c1, c2), 'TypeError'), (collide, 'Exception')], cont)
 
